@@ -31,3 +31,5 @@ func vfReach(id string)
 func vfFail(id string)
 func vfNote(s string)
 func vfBytes(name string, n int) string
+func vfChoiceStr(name string, opts ...string) string
+func vfAllocCap(n int, id string)
